@@ -1,11 +1,11 @@
 """Query-family properties (C01, C02, C03, C19, ...): the P-model / S-model of the evaluator."""
 import re, collections, json
-from qcase import coq_qcase, parse_rows, all_selected, cond_size, cond_ops, term_keys
+from qcase import coq_qcase, parse_rows, all_selected, cond_size, cond_ops, term_keys, in_dfrag
 import gen_query
 
-HEADER = "From EQL Require Import Base Values Syntax Spec Elab EvalPure Run.\nOpen Scope string_scope."
+HEADER = "From EQL Require Import Base Values Syntax Spec Elab EvalPure Dedup Run.\nOpen Scope string_scope."
 TARGETS = ['theories/Values.vo', 'theories/Syntax.vo', 'theories/Spec.vo', 'theories/Generated.vo', 'theories/Elab.vo',
-           'theories/EvalPure.vo', 'theories/Run.vo']
+           'theories/EvalPure.vo', 'theories/Dedup.vo', 'theories/Run.vo']
 
 
 class QueryFamily:
@@ -43,20 +43,28 @@ class QueryFamily:
 
     def canon(self, case, io):
         # tie: caching disabled, first evaluation, compared with the model (sequence when every variable is selected)
-        tie = ('seq', parse_rows(io['off'])) if all_selected(case) and not isinstance(parse_rows(io['off']), str) \
-            else self.view(case, io['off'], False)
+        rows = parse_rows(io['off'])
+        tie = ('seq', rows) if all_selected(case) and not isinstance(rows, str) else self.view(case, io['off'], False)
+        # second tie, on the D-model's fragment: the exact row SEQUENCE, de-duplication of rows included (projections too)
+        dtie = ('dseq', rows) if self.uses_dmodel(case) and not isinstance(rows, str) else None
         # property: every observed configuration against the specification
         prop = tuple(self.view(case, io[k], True) for k in self.observed())
-        return tie, prop
+        return (tie, dtie), prop
+
+    def uses_dmodel(self, case):
+        return in_dfrag(case)
 
     def observed(self):
         return [c + s for c in self.cache_configs for s in ('', '2')]
 
     def tie_view(self, case, mo):
+        mo, _, do = mo.partition(' DD ')
         rows = parse_rows(mo)
         if isinstance(rows, str):
-            return rows
-        return ('seq', rows) if all_selected(case) else ('set', sorted(set(rows)))
+            return (rows, None)
+        drows = parse_rows(do) if do.strip() not in ('', '-') else None
+        dtie = ('dseq', drows) if self.uses_dmodel(case) else None
+        return (('seq', rows) if all_selected(case) else ('set', sorted(set(rows))), dtie)
 
     def prop_view(self, case, so):
         return tuple(self.view(case, so, True) for _ in self.observed())
@@ -227,8 +235,11 @@ class C02(QueryFamily):
                    "row sets (projections) with caching disabled; caching enabled and re-evaluation compared with the specification")
 
     def gen(self, rng, i, tier):
-        if rng.random() < 0.2:
+        r = rng.random()
+        if r < 0.2:
             return gen_query.gen_case_conj_under_disj(rng, tier)
+        if r < 0.5:
+            return gen_query.gen_case_dedup(rng, tier)
         nv = rng.choice([2, 2, 3] if tier == 'quick' else [2, 3, 3, 4])
         return gen_query.gen_case(rng, nvars=nv, falsy=True, neg=True, maxdepth=3, select=rng.choice(['all', 'all', 'some']),
                                   dom_max=4 if nv < 4 else 3)
@@ -648,7 +659,7 @@ class C11(QueryFamily):
         return self._tie(case, parse_rows(io['off'])), tuple(self.view(case, io[k], True) for k in self.observed())
 
     def tie_view(self, case, mo):
-        return self._tie(case, parse_rows(mo))
+        return self._tie(case, parse_rows(mo.partition(' DD ')[0]))
 
     def nontrivial(self, case, io):
         rows = parse_rows(io['off'])
